@@ -126,7 +126,7 @@ class Obs:
 
 
 def run_impl(specs, data_file, scheduler="batch", argv=(), failing_builds=(), seed=None, interrupt_at=None,
-             build_oserror=(), run_filter=None, config_dir=None, slow_builds=0.0, builds_not_repeatable=False):
+             build_oserror=(), run_filter=None, config_dir=None, slow_builds=0.0, builds_not_repeatable=False, build_fail_rc=1):
     """one real session; returns what was observed"""
     by_name = {s.name: s for s in specs}
     obs = Obs()
@@ -163,7 +163,7 @@ def run_impl(specs, data_file, scheduler="batch", argv=(), failing_builds=(), se
             obs.events.append(("build", (text, cwd), ok))
         if slow_builds:
             time.sleep(slow_builds)      # long enough for the other worker threads to reach their build check
-        return (0 if ok else 1), "", ""
+        return (0 if ok else build_fail_rc), "", ""
 
     def pre_call(args, env, cwd=None, timeout=None):
         p = args.split()
